@@ -87,6 +87,8 @@ def run(chk):
     from lib import emitsiblings
     emitsiblings.run_bind_last(chk)
 
+    from lib import emitreport
+    emitreport.run(chk)
     return chk.finish(
         level="other",
         explanation=("Error-discipline rules over every non-ujit library unit of /repo's current source: discarded Error results "
